@@ -1284,6 +1284,10 @@ pub fn c18_all_ready(rec: &mut Rec, rng: &mut Rng, n_clients: usize, extra_waiti
     for i in 0..n_clients {
         sim.send_next(rec, rng, i);
     }
+    // before the signal the switch changes nothing: up to 10 clients are all admitted
+    if n_clients <= 10 && (sim.w.n_refused > 0 || sim.w.clients.iter().filter(|c| c.accepted).count() != n_clients) {
+        rec.oracle_fail("C18", &format!("with a kill switch installed (not signalled) only {} of {} clients were admitted, {} refused", sim.w.clients.iter().filter(|c| c.accepted).count(), n_clients, sim.w.n_refused), &sim.w.log);
+    }
     if extra_waiting {
         sim.connect(rec);
     }
